@@ -102,7 +102,12 @@ COORD_TABLES = {
     "int": ([20, 10, 30], 77),
     "float": ([0.5, -1.5, 0.25], 9.75),
     "str": (["q", "p", "r"], "zz"),
+    # ascending flavours for the Harvester.expand_dims route: merging (outer join) sorts the indexes
+    "ints": ([10, 20, 30], 77),
+    "floats": ([-1.5, 0.25, 0.5], 9.75),
+    "strs": (["p", "q", "r"], "zz"),
 }
+SORTED_VARIANTS = ["ints", "floats", "strs"]
 VARIANTS = ["int", "float", "str", "mixed"]
 
 
@@ -137,14 +142,42 @@ def grid(sizes):
     return [tuple(l) for l in itertools.product(*[range(1, n + 1) for n in sizes])]
 
 
+def dims_of(c):
+    """names of the model's dimensions 1..ND, in the dataset's order"""
+    return list(c.get("dimnames") or DIMS[:len(c["sizes"])])
+
+
+def cell_value(kind, r, slot):
+    import numpy as np
+    if kind == "data":
+        return 1.0 + r + 0.25 * slot
+    if kind == "nan":
+        return np.nan
+    return np.inf if (r + slot) % 2 == 0 else -np.inf
+
+
+def permutation(c, n):
+    """axes order of a variable with n >= 2 dimensions in the 'permuted' layout: never the identity"""
+    if n >= 3 and c["idx"] % 2:
+        return list(range(1, n)) + [0]          # rotation
+    return list(range(n))[::-1]                 # reversal
+
+
 def build_ds(c):
     """The real Dataset for an emitted pattern.  c['cells'][r][s]: location of rank r (row-major),
-    slot s (variable 1's positions, variable 2's, ...)."""
+    slot s (variable 1's positions, variable 2's, ...).
+
+    layouts: natural    - every variable stores its dimensions in the dataset's order
+             transposed - variables 2.. store them reversed (variable 1 fixes the dataset's order)
+             permuted   - the coordinates fix the dataset's order and EVERY variable is then assigned
+                          with permuted dimensions (as after Harvester.expand_dims + harvest, or
+                          ds['x'] = (('b', 'a'), ...))"""
     import numpy as np
     import xarray as xr
     sizes, nv, intvars, variant = c["sizes"], c["nv"], c["intvars"], c["variant"]
     nd = len(sizes)
-    dims = DIMS[:nd]
+    dims = dims_of(c)
+    layout = c.get("layout", "natural")
     coords = {dims[d]: np.array([coord_value(variant, d, i, sizes[d]) for i in range(1, sizes[d] + 1)]) for d in range(nd)}
     if intvars:
         coords["t"] = np.array(TCOORD)
@@ -155,39 +188,47 @@ def build_ds(c):
         arr = np.empty(tuple(sizes) + (nt,), dtype=float)
         for r, loc in enumerate(grid(sizes)):
             for t in range(nt):
-                kind = c["cells"][r][s + t]
-                if kind == "data":
-                    val = 1.0 + r + 0.25 * (s + t)
-                elif kind == "nan":
-                    val = np.nan
-                else:
-                    val = np.inf if (r + s + t) % 2 == 0 else -np.inf
-                arr[tuple(i - 1 for i in loc) + (t,)] = val
+                arr[tuple(i - 1 for i in loc) + (t,)] = cell_value(c["cells"][r][s + t], r, s + t)
         s += nt
         vdims = list(dims) + (["t"] if v in intvars else [])
         if v not in intvars:
             arr = arr[..., 0]
-        if c.get("layout") == "transposed" and v >= 2:      # the first variable fixes the dataset's dimension order
+        if layout == "transposed" and v >= 2:      # the first variable fixes the dataset's dimension order
             arr = arr.transpose(*reversed(range(arr.ndim)))
             vdims = vdims[::-1]
+        if layout == "permuted" and arr.ndim >= 2:
+            perm = permutation(c, arr.ndim)
+            arr = arr.transpose(*perm)
+            vdims = [vdims[i] for i in perm]
         arrays[VARS[v - 1]] = (vdims, arr)
-    ds = xr.Dataset(coords=coords, data_vars=arrays)
+    if layout == "permuted":
+        ds = xr.Dataset(coords=coords)
+        for name, (vdims, arr) in arrays.items():
+            ds[name] = (vdims, arr)
+        for name in arrays:
+            if ds[name].ndim >= 2 and tuple(ds[name].dims) == tuple(d for d in ds.dims if d in ds[name].dims):
+                raise RuntimeError("harness: layout 'permuted' did not take: %s stored as %r in a dataset ordered %r"
+                                   % (name, ds[name].dims, tuple(ds.dims)))
+    else:
+        ds = xr.Dataset(coords=coords, data_vars=arrays)
     if [d for d in ds.dims if d != "t"] != dims:
         raise RuntimeError("harness: dataset dimension order %r is not the model's %r" % (list(ds.dims), dims))
     return ds
 
 
 def setting_dict(c, s):
-    return {DIMS[d]: coord_value(c["variant"], d, s[d], c["sizes"][d]) for d in range(len(s)) if s[d] != 0}
+    dims = dims_of(c)
+    return {dims[d]: coord_value(c["variant"], d, s[d], c["sizes"][d]) for d in range(len(s)) if s[d] != 0}
 
 
 def project_setting(c, dct):
     nd = len(c["sizes"])
     out = [0] * nd
+    dims = dims_of(c)
     for key, val in dct.items():
-        if key not in DIMS[:nd]:
+        if key not in dims:
             return None
-        d = DIMS.index(key)
+        d = dims.index(key)
         i = coord_index(c["variant"], d, val, c["sizes"][d])
         if i is None:
             return None
@@ -201,13 +242,27 @@ def ignore_arg(c):
     return ["t", {"t"}][c["idx"] % 2]          # the documented spellings: a name or a set of names
 
 
-def make_harvester(xyz, c, ds):
+def make_harvester(xyz, c, ds, pattern=False):
+    """A real Harvester around `ds` whose function takes the parameter dimensions as arguments and
+    returns data in every slot - or, with pattern=True, the emitted pattern's value for the slot."""
     import numpy as np
-    nv, intvars = c["nv"], c["intvars"]
-    dims = DIMS[:len(c["sizes"])]
+    nv, intvars, sizes = c["nv"], c["intvars"], c["sizes"]
+    dims = dims_of(c)
+    locs = grid(sizes)
 
     def fn(**kw):
-        out = tuple(np.array([5.0, 6.0]) if v in intvars else 7.0 for v in range(1, nv + 1))
+        if pattern:
+            loc = tuple(coord_index(c["variant"], d, kw[dims[d]], sizes[d]) for d in range(len(dims)))
+            r = locs.index(loc)
+            out, s = [], 0
+            for v in range(1, nv + 1):
+                nt = 2 if v in intvars else 1
+                vals = [cell_value(c["cells"][r][s + t], r, s + t) for t in range(nt)]
+                out.append(np.array(vals) if v in intvars else vals[0])
+                s += nt
+            out = tuple(out)
+        else:
+            out = tuple(np.array([5.0, 6.0]) if v in intvars else 7.0 for v in range(1, nv + 1))
         return out if nv > 1 else out[0]
 
     # a signature with the parameter names, as a user's function would have
